@@ -3,10 +3,11 @@ import random
 import sweeps
 from sweeps import ALL, WS, program_units, diff_sweep, halts_extra
 
-PROPS_VO = ['Props/C01.vo', 'Props/Patterns_props.vo', 'Props/C01_lowerbool.vo']
+PROPS_VO = ['Props/C01.vo', 'Props/Patterns_props.vo', 'Props/C01_lowerbool.vo', 'Props/C01_lowerstmt.vo']
 GEN_ITEMS = ['coq/Gen/GenTables.v', 'coq/Gen/GenStdlib.v', 'coq/Gen/GenLayout.v']
 LEVEL = 'proof'
 TRUSTED = ['PARTIAL: proved = Turing-jump metatheory + verified VM + idiom lemmas (goto/branch/guard/return) + operator tables + library routines on regenerated text + '
+           'stmts_lowering_correct (C01_partial): COMPILER CORRECTNESS for the statement fragment F_stmt (int/bool locals, arithmetic + - * and unary, comparisons, and/or/not, if/else, while/for with break/continue, nested blocks, write(byte), writeln()) - for every program of the fragment and every w >= 2 the emitted code (model tied textually to hidc, labels included) runs with exactly the output bytes of an independent big-step source semantics and ends representing the final store; '
            'branch_lowering_correct: for EVERY boolean expression tree over comparisons of literals/locals, bool locals, not/and/or, the lowering model (tied textually to hidc, labels included) branches to the right continuation, short-circuits left to right and changes only r0/r1; '
            'the whole-generator simulation (C01_full_statement) is not proved: programs are covered by the differential sweep',
            'tools/hidref.py reference semantics (specification, written from README + property text; consumes the checked tree of hidc\'s own front end)',
@@ -22,6 +23,7 @@ def run(ctx):
     units += program_units(rng, 40 if q else 400, ['calls', 'globals'], ws, cfgs_per=3, seed_base=ctx.seed + 101, size=1.6)
     units += program_units(rng, 30 if q else 300, ALL + ['sleep'], [8] if q else WS, cfgs_per=2, seed_base=ctx.seed + 102)
     from component import run_corr
+    run_corr(ctx, 'corr_lowerstmt', 'statement lowering (declarations, assignments, if/else, while/for, break/continue, nested blocks, write(byte)): hidc function text vs LowerStmt model')
     run_corr(ctx, 'corr_lowerbool', 'boolean-branch lowering: hidc instruction text vs LowerBool model (labels included)')
     run_corr(ctx, 'corr_patterns', 'every emitted j classifies as a proved idiom; programs without time travel use only goto/branch/guard/return idioms')
     diff_sweep(ctx, 'aliasing / evaluation-order corpus (global index or operand modified by the other operand, same array passed twice)', sweeps.alias_units(ws), extra=halts_extra(ctx), monitor=True)
